@@ -59,6 +59,8 @@ func main() {
 	case "paramnames":
 		// voicheck paramnames : regenerate props/paramnames.json from the current tree (maintenance)
 		props.DumpParamNames(os.Args[2])
+	case "inputwrites":
+		props.DumpInputWrites(os.Args[2])
 	case "mod":
 		props.DumpMod(os.Args[2], os.Args[3])
 	case "dt":
